@@ -214,3 +214,26 @@ func VerifH_C12_loggerCancel() {
 	verifAssert(len(w.writes) <= Q, "more records printed than results produced")
 	verifCover("done")
 }
+
+// VerifH_C14_uniqueMany: N distinct hosts (more than two 65536-entry generations), then one of the
+// first hosts again (solver-chosen among a few): it is not printed a second time.  Concrete IDs;
+// what is explored is the position of the repeated host.
+func VerifH_C14_uniqueMany() {
+	N := verifParam("N", 140000)
+	in := make(chan scan.Result, 64)
+	rep := int(verifConcretize(uint64(ndU8("repeatedHost") % 4))) // host 0, 1, 2 or 3 answers again at the end
+	go func() {
+		for i := 0; i < N; i++ {
+			in <- &c14Result{id: "10." + string(rune('0'+i/100000%10)) + string(rune('0'+i/10000%10)) + "." + string(rune('0'+i/1000%10)) + string(rune('0'+i/100%10)) + "." + string(rune('0'+i/10%10)) + string(rune('0'+i%10))}
+		}
+		in <- &c14Result{id: "10.00.00.0" + string(rune('0'+rep))}
+		close(in)
+	}()
+	ul := NewUniqueLogger(nil)
+	n := 0
+	for range ul.uniqResults(context.Background(), in) {
+		n++
+	}
+	verifAssert(n == N, "a host that had been printed was printed again (or one was lost) in a long live session")
+	verifCover("done")
+}
